@@ -33,7 +33,11 @@ SUBSTREAMS = ['c12_rules']        # structural tie of the real checker to Model/
 COQ_IMPORTS = 'From VRP Require Import Base.Tac Model.Core Spec.Valid Spec.Relations Spec.Mutations.'
 MODEL_TARGETS = ['theories/Spec/Mutations.vo']
 SHARD = 24
-SIZES = {'quick': 36, 'thorough': 300, 'search': 120}      # number of SOLVED pairs (P, S); cases = pairs x (1 + sites)
+SIZES = {'quick': 36, 'thorough': 300, 'search': 40}       # number of SOLVED pairs (P, S); cases = pairs x (1 + sites)
+# one escalated round of 40 pairs (thorough site density) after a broken correspondence: a change of a rule DETAIL that keeps every
+# accept / reject verdict (the typical catch of the sub-stream c12_rules) has no oracle-level failing input to be found, and three
+# rounds of 120 pairs took more than an hour on a loaded machine
+SEARCH_ROUNDS = 1
 CAP = {'quick': 3, 'thorough': 12, 'search': 6}
 UNKNOWN = 'c12-unknown-job'
 FIELDS = ['cost', 'distance', 'duration', 'driving', 'serving', 'waiting', 'break']
@@ -1027,6 +1031,24 @@ def _reject_structure(c, msg):
     """structural qualifier of a rejection of a VALID document, derived from the documents and the items the message names"""
     prob, sol = c['problem'], c['solution']
     jobs = {j['id']: j for j in prob['plan']['jobs']}
+    if msg.startswith('tour size limit violation'):
+        # finding C12-F20: checker/mod.rs::get_vehicle_shift finds the shift of a tour BY TIME (the first shift of the vehicle whose
+        # [start.earliest, end.latest] intersects [arrival at the first stop, arrival at the last stop]) and never reads shiftIndex;
+        # when two shifts of a vehicle overlap in time the tour is counted with the other shift's `end` (one / two terminal activities)
+        mm = re.search(r"vehicle id '([^']*)', shift index: (\d+)", msg)
+        for t in sol['tours']:
+            if mm and t['vehicleId'] == mm.group(1) and t.get('shiftIndex', 0) == int(mm.group(2)) and t.get('stops'):
+                vt = e2e.vehicle_type_of({'problem': prob}, t)
+                if vt is None:
+                    continue
+                lo, hi = e2e.secs(t['stops'][0]['time']['arrival']), e2e.secs(t['stops'][-1]['time']['arrival'])
+                found = next((i for i, sh in enumerate(vt['shifts'])
+                              if e2e.secs(sh['start']['earliest']) <= hi
+                              and lo <= (e2e.secs(sh['end']['latest']) if sh.get('end') else e2e.INF)), None)
+                if found is not None and found != t.get('shiftIndex', 0) and \
+                        bool(vt['shifts'][found].get('end')) != bool(vt['shifts'][t.get('shiftIndex', 0)].get('end')):
+                    return ['/shift-found-by-time-is-not-the-tours-shift']
+        return ['']
     if msg.startswith('load mismatch'):
         mt = re.search(r"in tour '([^']*)'", msg)
         for t in sol['tours']:
